@@ -292,9 +292,64 @@ func c19GenPrecision(r *rng.Rand, tier string) interface{} {
 	return in
 }
 
+// c19GenTightRange: the tight-range stream. A lower and an upper bound on the same int64-valued column (Epoch as
+// nanosecond literals, or an int64 column holding values above 2^53) that differ by 1..200 and bracket a stored
+// value, in all inclusive/exclusive combinations: GenericComparison compares int64 bounds as float64, so the two
+// bounds usually round to the SAME float64 — IsFalse must still not call the range empty.
+func c19GenTightRange(r *rng.Rand, tier string) interface{} {
+	in := &c19In{TF: []string{"1Min", "5Min", "1H"}[r.Intn(3)]}
+	tfs := c19TFs[in.TF]
+	in.Cols = []c19Col{{"Seq", "int64"}}
+	if r.Chance(40) {
+		in.Cols = append(in.Cols, c19Col{"Z", c19MainTypes[r.Intn(len(c19MainTypes))]})
+	}
+	n := 3 + r.Intn(4)
+	bt, _ := time.Parse(time.RFC3339, c19Bases[r.Intn(len(c19Bases))])
+	e := bt.Unix()
+	big := []int64{1 << 60, 1<<53 + 1, 1 << 62, 1234567890123456789}[r.Intn(4)]
+	for k := 0; k < n; k++ {
+		row := c19Row{Epoch: e, Vals: []int64{big + int64(k)*r.Range(1, 300)}}
+		for _, c := range in.Cols[1:] {
+			row.Vals = append(row.Vals, c19GenVal(r, c.Type, false))
+		}
+		in.Rows = append(in.Rows, row)
+		e += tfs * r.Range(1, 3)
+	}
+	target := in.Rows[r.Intn(n)]
+	col, v := "Seq", target.Vals[0]
+	onEpoch := r.Chance(55)
+	if onEpoch {
+		col, v = "Epoch", target.Epoch*1e9
+	}
+	d1, d2 := r.Range(0, 100), r.Range(1, 100)
+	loOp, hiOp := []string{">", ">="}[r.Intn(2)], []string{"<", "<="}[r.Intn(2)]
+	if loOp == ">" && d1 == 0 {
+		d1 = 1
+	}
+	mk := func(x int64) c19Lit {
+		if onEpoch && x%10 == 0 && r.Chance(35) {
+			return c19Lit{K: "time", I: x, Fmt: 0} // the 8-digit fractional layout
+		}
+		return c19Lit{K: "int", I: x}
+	}
+	lo, hi := mk(v-d1), mk(v+d2)
+	switch k := r.Intn(100); {
+	case k < 25 && d1 > 0:
+		in.Preds = []c19Pred{{Col: col, Op: "between", L: lo, H: &hi}}
+	case k < 60:
+		in.Preds = []c19Pred{{Col: col, Op: loOp, L: lo}, {Col: col, Op: hiOp, L: hi}}
+	default:
+		in.Preds = []c19Pred{{Col: col, Op: hiOp, L: hi}, {Col: col, Op: loOp, L: lo}}
+	}
+	return in
+}
+
 func c19Gen(r *rng.Rand, i int, tier string) interface{} {
 	if r.Chance(12) {
 		return c19GenPrecision(r, tier)
+	}
+	if r.Chance(10) {
+		return c19GenTightRange(r, tier)
 	}
 	tfNames := []string{"1Min", "1Min", "1Min", "5Min", "5Min", "1H", "1H", "1H", "1H", "1Sec"}
 	in := &c19In{TF: tfNames[r.Intn(len(tfNames))]}
